@@ -149,9 +149,47 @@ func c17Settled(b *core.B) {
 	}
 }
 
+// c17Repeated: a composition used twice gives twice what the inlined text gives: the second use
+// starts where the first one started - same data map, same stored block, nothing left behind.
+func c17Repeated(b *core.B) {
+	partials := map[string]string{
+		"row":   "r(<%= n %>)",
+		"frame": "[<%= yield %>]",
+		"sets":  "<% let seen = \"again\" %>s",
+		"shows": "<%= if (seen) { %><%= seen %><% } else { %>fresh<% } %>",
+	}
+	for _, c := range []struct{ t, want string }{
+		// one data map that names a layout, used for two partial calls and in a loop
+		{`<% let opts = {layout: "frame", n: 1} %><%= partial("row", opts) %>|<%= partial("row", opts) %>|<%= opts["layout"] %>`, "[r(1)]|[r(1)]|frame"},
+		{`<% let opts = {layout: "frame", n: 2} %><%= for (i) in [1, 2, 3] { %><%= partial("row", opts) %><% } %>|<%= len(opts) %>`, "[r(2)][r(2)][r(2)]|2"},
+		{`<%= partial("row", gomap) %><%= partial("row", gomap) %>|<%= len(gomap) %>`, "[r(7)][r(7)]|2"},
+		// a stored block that sets a name, replayed without data twice, and what the page sees afterwards
+		{`<% let k = 0 %><% contentFor("cnt") { %><% let k = k + 1 %><%= k %>.<% } %><%= contentOf("cnt") %><%= contentOf("cnt") %>|<%= k %>`, "1.1.|0"},
+		{`<% let where = "page" %><% contentFor("w") { %><% let where = "side" %><%= where %><% } %><%= contentOf("w") %>|<%= where %>|<%= contentOf("w", {}) %>|<%= where %>`, "side|page|side|page"},
+		{`<%= contentOf("none") { %><% let dflt = "d" %><%= dflt %><% } %>|<%= if (dflt) { %>leaked<% } else { %>clean<% } %>`, "d|clean"},
+		{`<%= partial("sets") %><%= partial("shows") %>|<%= partial("sets", {}) %><%= partial("shows", {}) %>`, "sfresh|sfresh"},
+	} {
+		if !b.Begin("repeated: " + c.t) {
+			continue
+		}
+		b.NonTrivialStr(c.t)
+		b.Count("composition:used-twice")
+		ctx := c17Base(&progEnv{}, partials, "")
+		ctx.Set("gomap", map[string]interface{}{"layout": "frame", "n": 7})
+		res := render(b, c.t, ctx)
+		if res.Pan != nil {
+			continue
+		}
+		if res.Err != nil || res.Out != c.want {
+			b.Violate("differs-from-inline|composition-used-twice", fmt.Sprintf("want %q, got %s", c.want, res))
+		}
+	}
+}
+
 func c17Run(b *core.B) {
 	if b.Batch == 0 {
 		c17Settled(b)
+		c17Repeated(b)
 	}
 	r := b.Rng(1)
 	n := 40000
